@@ -53,6 +53,18 @@ func Keys(r *rand.Rand, profile string, n int) []string {
 		for i := len(ks); i < n; i++ {
 			ks = append(ks, fmt.Sprintf("k%d!%d", i%3, i))
 		}
+	case "nulpad":
+		// short keys that differ only in trailing (or leading) NUL bytes, and their neighbours: distinct
+		// keys for the engine, equal under any fixed-width zero padding
+		stems := []string{"a", "a\x00", "a\x00\x00", "k", "k\x00", "\x00", "\x00\x00", "ab", "ab\x00", "\x00a", "absent", "absent\x00\x00", "12345678", "1234567", "1234567\x00", "k\x00\x01"}
+		for _, i := range r.Perm(len(stems)) {
+			if len(ks) < n {
+				ks = append(ks, stems[i])
+			}
+		}
+		for i := len(ks); i < n; i++ {
+			ks = append(ks, fmt.Sprintf("n%d\x00", i))
+		}
 	case "binary":
 		seen := map[string]bool{}
 		for len(ks) < n {
